@@ -48,6 +48,8 @@ func c04(w *core.World, r *core.Report) {
 	ruleExpiryPaths(w, r)
 	r.Rule("R20.9", "a RESTORE error is swallowed as 'key exists' only for the published BUSYKEY texts (shared with C20)", 2)
 	ruleBusyKeyTexts(w, r)
+	r.Rule("R04.11", "a plain cluster batch scans its replies for error replies before it reports success: a refused native command of a snapshot entry is not taken for applied", 1)
+	ruleBatchExecChecksReplies(w, r)
 }
 
 // chanOf reports whether v denotes the channel created by mk (through cells / closures).
